@@ -13,6 +13,9 @@ import (
 
 // Deprecated.
 func idToRelationID(c *api.Context, namespace string, id b6.Identifiable) b6.FeatureID {
+	if id == nil {
+		return b6.FeatureIDInvalid
+	}
 	return b6.MakeRelationID(b6.Namespace(namespace), encoding.HashString(id.FeatureID().String())).FeatureID()
 }
 
